@@ -21,7 +21,8 @@ McCmds(w) ==
   (IF McTier = "thorough" THEN {Cmd("auth", 1, u, s) : u \in 1..3, s \in {1, 2, 9}}
    ELSE {Cmd("auth", 1, 1, 1), Cmd("auth", 1, 2, 2), Cmd("auth", 1, 1, 9), Cmd("auth", 1, 3, 1), Cmd("auth", 1, 2, 1)})
   \cup {Cmd("auth1", 1, 1, 0)}
-  \cup {Cmd(op, m, 0, 0) : op \in {"r", "rf", "rc", "rp", "rh", "rhc"}, m \in {i \in 1..n : w.msgs[i].k = "r"}}
+  \cup {Cmd(op, m, 0, 0) : op \in ReadOps \cup {"bus"}, m \in {i \in 1..n : w.msgs[i].k = "r"}}
+  \cup {Cmd("xr", m, cr[1], cr[2]) : m \in {i \in 1..n : w.msgs[i].k = "r"}, cr \in {<<0, 0>>, <<1, 1>>, <<2, 2>>, <<1, 9>>, <<3, 1>>}}
   \cup {Cmd(op, m, 0, 0) : op \in WriteOps, m \in {i \in 1..n : w.msgs[i].k = "w"}}
   \cup {Cmd(op, m, cr[1], cr[2]) : op \in HttpOps, m \in 1..n, cr \in (IF McTier = "thorough" THEN Creds(McTier) ELSE {<<0, 0>>, <<1, 1>>, <<2, 2>>, <<1, 9>>, <<3, 1>>})}
 
@@ -37,14 +38,7 @@ McNext == \E c \in McCmds(mw) :
                 o == AsObs(x.o)
             IN /\ mw' = mw
                /\ mst' = x.st
-               /\ mU' = IF mU = {} THEN {}
-                        ELSE IF c.op \in AuthOps
-                          THEN IF c.op = "auth" /\ SecretOk(mw, c.u, c.s)
-                               THEN (IF o.rc = "authok" /\ Quiet(o, mst.pr) THEN {c.u} ELSE {})
-                               ELSE (IF o.rc # "authok" /\ Quiet(o, mst.pr) THEN mU \cup {0} ELSE {})
-                        ELSE IF c.op \in HttpOps THEN (IF HttpOk(GT, mw, c, o, mst.pr) THEN mU ELSE {})
-                        ELSE IF o.rc = "usage" /\ Quiet(o, mst.pr) THEN mU
-                        ELSE {u \in mU : TelnetOk(GT[u], mw, c, o, mst.pr)}
+               /\ mU' = PStep(GT, mw, mU, c, o, mst.pr)
                /\ (mU = {} \/ mU' # {} \/ PrintT(<<"VF", "MC-REJECT", mw, mst, c, o>>))    \* the step P rejects, for the report
 
 (* S => P: the monitor never rejects a behaviour of S *)
